@@ -57,6 +57,12 @@ func Table(nconn int) script.Table {
 			tb.Q[id] = script.Outcome{Stmts: []script.Stmt{st}}
 		}
 	}
+	// texts the parser refuses: an error, no statement, two statements (a Parse of any of them fails
+	// and must leave the name it was aimed at as it was)
+	tb.Q["refused: error"] = script.Outcome{Err: &script.ErrSpec{Base: "parser refuses"}}
+	tb.Q["refused: empty"] = script.Outcome{}
+	one := script.Stmt{Ops: []script.Op{{K: "complete", Tag: "X"}}}
+	tb.Q["refused: two"] = script.Outcome{Stmts: []script.Stmt{one, one}}
 	return tb
 }
 
@@ -64,7 +70,7 @@ func Run(c Case) (res core.Result) {
 	res = core.Result{Labels: append([]string{fmt.Sprintf("connections=%d", c.NConn)}, c.Classes...)}
 	for _, cl := range c.Classes {
 		switch cl {
-		case "simple-query-between", "large-message-between", "reparse-before-execute", "rebind-portal", "close-then-use", "same-name-on-two-connections", "describe-after-reparse", "params-per-portal":
+		case "failed-reparse", "simple-query-between", "large-message-between", "reparse-before-execute", "rebind-portal", "close-then-use", "same-name-on-two-connections", "describe-after-reparse", "params-per-portal":
 			res.NonTrivial = true
 		}
 	}
@@ -137,7 +143,7 @@ func Run(c Case) (res core.Result) {
 				res.Sig, res.Violation = "C07/isolation/foreign-callback", fmt.Sprintf("%s: a callback ran on connection %d (event %s %q)", where, ev.Conn, ev.K, ev.Q)
 				return res
 			}
-			if (ev.K == "stmt" || ev.K == "parse") && len(ev.Q) > 2 && ev.Q[:2] != fmt.Sprintf("c%d", ci) {
+			if (ev.K == "stmt" || ev.K == "parse") && len(ev.Q) > 2 && ev.Q[0] == 'c' && ev.Q[:2] != fmt.Sprintf("c%d", ci) {
 				res.Sig, res.Violation = "C07/isolation/foreign-statement", fmt.Sprintf("%s: statement %q of another connection was used", where, ev.Q)
 				return res
 			}
